@@ -18,11 +18,71 @@ SimRp        == IF wd.rps = {} THEN {} ELSE {RandomElement(wd.rps)}
 SimRare      == RandomElement(1..(4 + 0 * nv)) = 1
 SimRareDb    == Existing # {} /\ RandomElement(1..(7 + 0 * nv)) = 1
 SimNoFrom    == IF RandomElement(1..(6 + 0 * nv)) = 1 THEN {RandomElement(Preds)} ELSE {}
+\* the statements the design refuses: a time-bounded DROP SERIES (at most one per behaviour: as implemented it
+\* drops whole series, after which the two worlds differ), DELETE and DROP SHARD
+TimeDropDone == \E n \in 1..Len(hist) : hist[n].a = "DropSeriesTime"
+\* ... offered where the measurement has rows in more than one shard group (the bound then separates rows that the statement
+\* names from rows it does not), with a predicate that selects something
+Spread       == {i \in Existing : Cardinality({GroupOf(r.t) : r \in wd.rows[i]}) > 1}
+HitPreds(i)  == {p \in Preds : \E r \in wd.rows[i] : Sat(p, r.s)}
+SimTimeDrops == IF Spread = {} \/ TimeDropDone THEN {}
+                ELSE LET i == RandomElement(Spread)
+                     IN {<<i, RandomElement(HitPreds(i)), RandomElement({"lt", "gt"}), RandomElement({t \in Times : t % 10 = 1})>>}
+SimUnsupported == IF RandomElement(1..(5 + 0 * nv)) # 1 THEN {}
+                  ELSE {<<RandomElement({"Delete", "DeleteTime", "DropShard"}), RandomElement(Insts)>>}
+\* groups: a write goes to ONE shard group, most often the newest one written so far or the next one (the data of a
+\* measurement grows forward in time), sometimes an old one
+SimGroup(x)  == LET used == {GroupOf(r.t) : r \in UNION {wd.rows[i] : i \in Insts}} \cup {d.r.t \div 10 : d \in dropped}
+                    top  == IF used = {} THEN 0 ELSE Max(used)
+                    nxt  == IF top + 1 \in Groups THEN top + 1 ELSE top
+                IN RandomElement({top, top, nxt, nxt, RandomElement(Groups)})
+\* every other batch straddles two shard groups
+SimKeysG(i, x) == LET n == RandomElement(1..MaxBatch)
+                      g == SimGroup(x)
+                      g2 == IF RandomElement(1..2) = 1 THEN RandomElement(Groups) ELSE g
+                      ts == {t \in Times : GroupOf(t) \in {g, g2}}
+                  IN {<<SimSeries(i, x + j), RandomElement(ts)>> : j \in 1..n} \ Occupied(i)
+SimWriteG(x) == LET i == RandomElement({"rp1.m", "rp1.m", "rp1.m", "rp2.m", "rp2.m", "rp1.n"}) IN <<i, SimKeysG(i, x)>>
+SimWritesG   == {w \in {SimWriteG(nv + j) : j \in 1..2} : w[2] # {}}
+\* phases: writes to whatever the design refuses, rows in flight during a wholesale drop
+Unusable     == {i \in Insts : ~Usable(wd, i)}
+SimRefused   == IF Unusable = {} THEN {} ELSE LET i == RandomElement(Unusable) IN {<<i, {<<RandomElement(Series), RandomElement(Times)>>}>>}
+SimRace(rp)  == LET i == RandomElement(InstsOfRp(rp))
+                IN {<<i, {<<RandomElement(Series), RandomElement(Times)>> : j \in 1..RandomElement(1..2)}>>}
+SimDbRace    == LET i == RandomElement(Insts)
+                IN {<<i, {<<RandomElement(Series), RandomElement(Times)>> : j \in 1..RandomElement(1..2)}>>}
+\* while a background deletion is under way the other statements are offered less often: the phases and the statements
+\* racing with them make up most of what happens next
+Busy         == wd.dbph # "none" \/ (\E r \in RPs : wd.rpph[r] # "none") \/ (\E i \in Insts : wd.mph[i] # "none")
+Quiet(x)     == Busy /\ RandomElement(1..(3 + 0 * x)) # 1
+SimWritesP   == IF Quiet(nv) THEN {} ELSE {w \in {SimWrite(nv + 1)} : w[2] # {}}
+\* the write that re-creates a measurement being deleted
+BusyInsts    == {i \in Insts : Usable(wd, i) /\ ~wd.ex[i] /\ wd.mph[i] # "none"}
+SimRecreate  == IF BusyInsts = {} THEN {} ELSE LET i == RandomElement(BusyInsts) IN {w \in {<<i, SimKeys(i, nv)>>} : w[2] # {}}
+SimWritesPP  == SimWritesP \cup SimRecreate
+SimDropsP    == IF Quiet(nv + 1) THEN {} ELSE SimDrops
+SimNoFromP   == IF Busy THEN {} ELSE SimNoFrom
+SimUnsupportedP == IF Busy THEN {} ELSE SimUnsupported
+SimRareP     == RandomElement(1..(2 + 0 * nv)) = 1
+SimRareDbP   == Existing # {} /\ RandomElement(1..(4 + 0 * nv)) = 1
 \* exhaustive mode: a small alphabet of predicates (none / some / all, one of each operator family)
 SmallPreds   == {Leaf("eq", "host", {"a"}), Leaf("ne", "host", {"a"}), Leaf("re", "host", {"a", "b"}),
                  Two("or", "a", "x"), Leaf("all", "host", {}), Leaf("none", "host", {})}
 SmallDrops   == Insts \X SmallPreds
 OneInst      == {"rp1.m"}
+TinyPreds    == {Leaf("eq", "host", {"a"}), Leaf("all", "host", {})}
+TinyDrops    == {"rp1.m"} \X TinyPreds
+TwoInsts     == {"rp1.m", "rp2.m"}
+TinyWrites   == TwoInsts \X KeySets
+TinyTimeDrops== {<<"rp1.m", Leaf("eq", "host", {"a"}), "lt", 2>>}
+TinyUnsupported == {<<"Delete", "rp1.m">>}
+TinyRefused  == {<<i, {<<[host |-> "a", region |-> "x"], 1>>}>> : i \in {"rp1.m", "rp2.m"}}
+TinyRace(rp) == {<<CHOOSE i \in InstsOfRp(rp) : NameOf(i) = "m", {<<[host |-> "a", region |-> "x"], 1>>}>>}
+TinyDbRace   == {<<"rp1.m", {<<[host |-> "a", region |-> "x"], 1>>}>>}
+OneRp        == {"rp2"}
+PhasedOn     == TRUE
+\* two shard groups served by one index group, a third with its own
+IdxShared(g) == IF g = 1 THEN 0 ELSE g
 \* skeletons of global actions (a cfg file cannot hold a tuple)
 SkelNone == <<>>
 SkelA == <<"Flush", "RestartKill", "Flush">>
@@ -30,5 +90,9 @@ SkelB == <<"Flush", "Flush", "Compact", "RestartClean">>
 SkelC == <<"RestartKill", "Flush", "RestartClean">>
 SkelD == <<"Flush", "Compact", "RestartKill", "Flush", "Compact">>
 SkelE == <<"RestartClean", "Flush", "Flush", "RestartKill">>
+SkelG == <<"RestartClean", "Flush", "RestartKill">>
+SkelH == <<"Flush", "RestartKill", "RestartClean">>
+SkelP == <<"RestartKill", "Flush", "RestartClean">>
+SkelQ == <<"RestartClean", "RestartKill", "Flush">>
 Export == (Len(hist) = Depth) => PrintT(<<"TRACE", ToJson(hist)>>)
 =============================================================================
